@@ -60,7 +60,9 @@ class _Index(object):
         self._h = h
 
     def __del__(self):
-        core.release(self._h)
+        h = getattr(self, "_h", None)     # absent when the constructor raised; core is None at interpreter shutdown
+        if h is not None and core is not None:
+            core.release(h)
 
     def _info(self):
         kind = ctypes.c_int()
@@ -194,7 +196,9 @@ class _SliceBuilder(object):
         self.keep = []
 
     def __del__(self):
-        core.release(self.h)
+        h = getattr(self, "h", None)
+        if h is not None and core is not None:
+            core.release(h)
 
     def append_array(self, array, frombool):
         intarray = np.ascontiguousarray(np.asarray(array, dtype=np.int64))
@@ -429,7 +433,9 @@ class Content(object):
         raise TypeError("Content is abstract")
 
     def __del__(self):
-        core.release(self._h)
+        h = getattr(self, "_h", None)     # absent when the constructor raised; core is None at interpreter shutdown
+        if h is not None and core is not None:
+            core.release(h)
 
     def _finish(self, res, identities, parameters):
         if identities is not None:
@@ -1110,9 +1116,11 @@ UnionArray8_U32 = _mk_union("UnionArray8_U32", IndexU32)
 UnionArray8_64 = _mk_union("UnionArray8_64", Index64)
 
 
-# placeholders replaced by akshim.builders / akshim.virtual when those modules are imported
-class ArrayBuilder(object):
-    pass
+# ArrayBuilder / LayoutBuilder live in akshim.builder (which imports this module lazily, so either import order works)
+from akshim.builder import ArrayBuilder, LayoutBuilder  # noqa: E402,F401
+
+
+# placeholder replaced by akshim.virtual when that module is imported
 
 
 @_register
